@@ -417,3 +417,34 @@ def x25519_rules(F):
                     ("= to_montgomery(clamp(secret) * B), clamp(secret) the unreduced integer" if ok else "the public key is not to_montgomery(clamp(secret) * B) with the unreduced integer")
             except Exception as e:
                 yield "PublicKey::from(&%s)" % sec, f, "unknown", "analysis failed: %r" % (e,)
+
+
+def expanded_from_bytes_rule(F):
+    """(status, msg) for hazmat::ExpandedSecretKey::from_bytes on 64 symbolic bytes: scalar = clamp(bytes[0..32]) mod l, hash_prefix = bytes[32..64]
+    (hazmat users construct expanded keys through it directly, so the clamp must live here and not only on the SigningKey path)"""
+    f = one_fn(F, r"hazmat::ExpandedSecretKey::from_bytes$")
+    a_ = F.adts.get("ed25519_dalek::hazmat::ExpandedSecretKey")
+    if f is None or not a_:
+        return "missing", "ExpandedSecretKey::from_bytes not found"
+    names = [x["name"] for x in a_["variants"][0]["fields"]]
+    src = ("e",)
+    try:
+        ret, ip = run(F, f, [bytes_of(src, 0, 64)])
+    except Exception as e:
+        return "unknown", "analysis failed: %r" % (e,)
+    v = ip.deconst(ret) if ret is not None else None
+    if v is None or v[0] != "st" or len(v[1]) != len(names):
+        return "unknown", "the expanded key is outside the domain"
+    got = dict(zip(names, (ip.deconst(x) for x in v[1])))
+    want_a = ssym(("sc", ("clamp", src, 0), 0))
+    sc_, pre = got.get("scalar"), got.get("hash_prefix")
+    if sc_ is None or pre is None or has_unknown(describe_val(pre)) or sc_[0] != "sp":
+        return "unknown", "a field of the expanded key is outside the domain"
+    bad = []
+    if sc_ != want_a:
+        bad.append("scalar = %s, expected clamp(bytes[0..32]) mod l" % BQ.show_sp(sc_))
+    if pre != bytes_of(src, 32, 32):
+        bad.append("hash_prefix is not bytes[32..64]")
+    if bad:
+        return "viol", "; ".join(bad)
+    return "ok", "scalar = clamp(bytes[0..32]) mod l, hash_prefix = bytes[32..64]"
